@@ -98,9 +98,45 @@ def oracle(ctx, script, real):
     defs, ops = script
     cfg, obs, events = real
     last = None
+    # the radio configuration as the command history defines it (independent of the state the implementation reports)
+    track = [dict(rx=None, tx=None, fh=None, run=False) for _ in cfg]
     for e in events:
+        if e["op"][0] == "ctrl" and e["obs"][1] == 1:
+            try:
+                toks = bytes(e["op"][2]).decode("ascii").strip("\0").split(" ")
+                rsp = bytes(e["obs"][3:]).decode("ascii").strip("\0").split(" ")
+            except UnicodeDecodeError:
+                toks, rsp = [], []
+            i = e["op"][1]
+            if len(toks) >= 2 and toks[0] == "CMD" and len(rsp) >= 3 and rsp[1] == toks[1]:
+                aff = [i] + (cfg[i]["children"] if cfg[i]["mgt"] and cfg[i]["idx"] == 0 else [])
+                try:
+                    if toks[1] == "RXTUNE" and rsp[2] == "0" and len(toks) == 3:
+                        track[i]["rx"] = int(toks[2]) * 1000
+                    elif toks[1] == "TXTUNE" and rsp[2] == "0" and len(toks) == 3:
+                        track[i]["tx"] = int(toks[2]) * 1000
+                    elif toks[1] == "SETFH" and rsp[2] == "0" and len(toks) >= 6:
+                        a = [int(x) for x in toks[2:]]
+                        track[i]["fh"] = (a[0], a[1], [(a[k] * 1000, a[k + 1] * 1000) for k in range(2, len(a) - 1, 2)])
+                    elif toks[1] == "POWEROFF":
+                        for j in aff:
+                            track[j]["fh"] = None      # power-off ends frequency hopping, on the children it switches off too
+                            track[j]["run"] = False
+                    elif toks[1] == "POWERON" and rsp[2] == "0":
+                        for j in aff:
+                            track[j]["run"] = True
+                except ValueError:
+                    pass
         if "state" in e:
             last = e["state"]
+            for i, t in enumerate(last[0]):
+                rep = dict(rx=t["rx"], tx=t["tx"], fh=None if t["fh"] is None else (t["fh"][0], t["fh"][1], [tuple(x) for x in t["fh"][2]]), run=bool(t["run"]))
+                if rep != track[i]:
+                    diff = [k for k in rep if rep[k] != track[i][k]]
+                    ctx.oracle_fail("the radio configuration of a transceiver differs from what the commands sent to it (and to its parent) configured: " + ",".join(diff),
+                                    dict(trx=i, trx_defs=defs, ops=[SC.describe(o) for o in ops]), key="c02-config:" + ",".join(diff),
+                                    expected={k: track[i][k] for k in diff}, observed={k: rep[k] for k in diff})
+                    track[i] = rep            # report once, then follow the implementation
         elif e["op"][0] == "tick" and last is not None and not e.get("exc"):
             fn = e["op"][1]
             st = last[0]
